@@ -66,7 +66,8 @@ type G struct {
 	unmanaged       bool
 	atomic          int // >0: yields are skipped (harness instrumentation running on this goroutine)
 	steps           int
-	sinceParkYields int // soft yields passed without parking since the last park
+	sinceParkYields int        // soft yields passed without parking since the last park
+	held            []heldLock // simulated mutexes this goroutine holds (lockset tracking)
 }
 
 // TickEvery: a goroutine that passes this many soft yields without parking is
@@ -137,6 +138,12 @@ type Sim struct {
 	fallbackCtr map[string]int
 	simUUID     uint64
 	Probe       map[string]int
+
+	// TrackMaps turns on lockset tracking of shared maps (race.go).
+	TrackMaps   bool
+	maps        map[uintptr]*mapState
+	MapRaces    []MapRace
+	MapAccesses int
 }
 
 type tryLock struct {
